@@ -10,6 +10,10 @@ Decided clauses:
   R8.2 needs_rehash: return values are exactly -1 / 0 / 1; 0 or 1 only after every decode step
        succeeded; 0 only with an equality fact for every compared parameter; 1 only with a
        difference fact.
+  R8.4 the SIMD Argon2 address generators hand a freshly zero-filled block to the in-place compression
+       function at every use (its last writer on the path is the zero fill).
+  R8.2-valid needs_rehash answers 0 / 1 for an Argon2 string only if the decoded parameters passed
+       argon2_validate_inputs() (inside argon2_decode_string on every success exit, or in the caller).
 NOT decided: Argon2 / scrypt output values, string grammar strictness.
 """
 from .. import terms as T
@@ -198,6 +202,50 @@ def run(ctx, chk):
                        key="R8.3 argon2_decode_string unguarded-narrowing")
     chk.floor("R8.3", "narrowing stores of parsed decimals in argon2_decode_string", n83, 4)
 
+    # ---- R8.4 zero scratch blocks of the address generator -----------------------------------------------------
+    # G(0, x) of the data-independent addressing: a local block that the function zero-fills and then hands to a callee that
+    # updates it in place (the SIMD fill_block_with_xor keeps its running state there) must be zero again at every such
+    # hand-over, i.e. its last writer on the path is the zero fill - hoisting the memset out of the loop leaves a dirty block
+    # for the second and later address blocks of a segment.
+    cgw = prog.callgraph()
+    n84 = 0
+    for f in prog.functions():
+        if f.decl or "argon2-fill-block" not in f.unit or f.sname != "generate_addresses":
+            continue
+        for p in cm.paths(prog, f, backedge_limit=2):
+            zeroed = {}
+            lastw = {}
+            for e in p.events:
+                if e.kind == "store":
+                    r = T.root(e.addr)
+                    if r[0] == "alloca":
+                        lastw[r] = e
+                    continue
+                if e.kind != "call":
+                    continue
+                nm = e.callee_name() or ""
+                if nm.startswith(("llvm.memset", "memset")) and e.args and T.root(e.args[0])[0] == "alloca" and e.args[1] == C(0, 8):
+                    r = T.root(e.args[0])
+                    zeroed[r] = e
+                    lastw[r] = e
+                    continue
+                if e.callee[0] != "fn":
+                    continue
+                wp = cgw.writes_params(e.callee[1])
+                for k, a in enumerate(e.args):
+                    r = T.root(a)
+                    if r[0] != "alloca" or k not in wp:
+                        continue
+                    if r in zeroed and k == 0:
+                        n84 += 1
+                        ok = lastw.get(r) is zeroed[r]
+                        chk.ob("R8.4", f, "the zero block handed to %s is freshly zeroed" % nm, ok, loc=f.loc(e.iid),
+                               detail="" if ok else "last writer of %s before this call is %s at %s, not the zero fill"
+                               % (T.show(r, f), lastw[r].callee_name() if lastw[r].kind == "call" else "a store", f.loc(lastw[r].iid)),
+                               path=None if ok else p, key="R8.4 %s %s" % (f.unit.split("/")[-1], nm))
+                    lastw[r] = e
+    chk.floor("R8.4", "hand-overs of zero scratch blocks in the SIMD address generators", n84, 4)
+
     # ---- R8.2 --------------------------------------------------------------------------------------
     spec = [
         # (function, decode steps [(callee, success)], number of compared parameters, requested-value roots)
@@ -255,6 +303,35 @@ def run(ctx, chk):
                 chk.ob("R8.2", fn, "1 only with a difference fact on a compared parameter", nes >= 1, loc=fn.loc(p.end_iid),
                        path=None if nes >= 1 else p, key="R8.2 %s one-without-difference" % name)
     chk.floor("R8.2", "exits of needs_rehash cores", n, 8)
+    # R8.2-valid: "-1 when the string is malformed" includes strings that parse token by token but carry out-of-range
+    # parameters (t=0, m < 8p, salt/hash shorter than the Argon2 minimum): an answer 0/1 needs argon2_validate_inputs() == OK
+    # on the decoded context, either inside argon2_decode_string (on each of its success exits) or in the caller itself.
+    ds = prog.need("argon2_decode_string", rule="R8.2-valid")
+    nv = 0
+    dec_validates = True
+    for p, conj in cm.exits_returning(prog, ds, "Z"):
+        nv += 1
+        v = [e for e in p.calls("argon2_validate_inputs") if e.args and e.args[0] == ("arg", 0) and cm.call_is_zero(p, e, conj)]
+        if not v:
+            dec_validates = False
+            bad_exit = (ds.loc(p.end_iid), p)
+    if nv == 0:
+        raise AnalysisBroken("R8.2-valid: argon2_decode_string has no success exit")
+    fn = prog.need("_needs_rehash", rule="R8.2-valid")
+    nn = 0
+    for p in cm.paths(prog, fn):
+        if p.kind != "ret" or p.ret is None or p.ret[0] != "c" or T.to_signed(p.ret[1], p.ret[2]) == -1:
+            continue
+        nn += 1
+        dec = list(p.calls("argon2_decode_string"))
+        own = [e for e in p.calls("argon2_validate_inputs") if dec and e.idx > dec[0].idx and e.args[0] == dec[0].args[0]
+               and p.facts.zeroness(e.res) == "Z"]
+        ok = dec_validates or bool(own)
+        chk.ob("R8.2-valid", fn, "answer %d only for a string whose decoded parameters passed argon2_validate_inputs()"
+               % T.to_signed(p.ret[1], p.ret[2]), ok, loc=fn.loc(p.end_iid),
+               detail="" if ok else "argon2_decode_string succeeds at %s without validating, and the caller does not validate either" % bad_exit[0],
+               path=None if ok else bad_exit[1], key="R8.2-valid _needs_rehash")
+    chk.floor("R8.2-valid", "0/1 exits of the Argon2 needs_rehash core", nn, 2)
     # wrappers return the core's value (or -1)
     for name in (A2 + "i_str_needs_rehash", A2 + "id_str_needs_rehash", "crypto_pwhash_str_needs_rehash"):
         fn = prog.need(name, rule="R8.2")
